@@ -231,8 +231,11 @@ macro_rules! d1 {
             let trimmed = !d.has_point;
             if !trim {
                 assert!(d.has_point && d.n_frac >= 1, "untrimmed output has a fraction");
-            } else if d.has_point {
-                assert!(d.digits % POW10[d.n_frac] != 0, "integral output keeps a fraction although trim_floats is set");
+            } else if d.has_point && exp10 >= 0 && (maxd == 0 || maxd >= n) {
+                // documented: "trim a trailing .0 from integral floats" (also with min digits). Only
+                // demanded when the float itself is integral and no digit was dropped; what happens
+                // to a '.0' that digit truncation produces is not specified.
+                assert!(d.digits % POW10[d.n_frac] != 0, "integral float keeps a fraction although trim_floats is set");
             }
             if mind != 0 && !trimmed {
                 assert!(d.sig >= mind, "fewer than min_significant_digits digits");
@@ -252,3 +255,125 @@ d1!(d1_sci_3, 1_000, 40, STANDARD, false, false, -340, 300, 4, 0);
 d1!(d1_brk_3, 1_000, 40, STANDARD, false, false, -14, 14, 3, 10);
 d1!(d1_pos_5, 100_000, 40, STANDARD, false, false, -10, 10, 6, 0);
 d1!(d1_all_5, 100_000, 60, STANDARD, false, false, -340, 300, 8, 12);
+
+/// D2: the three notation writers called directly (no API layer, no notation choice), one per
+/// harness, with the same semantic oracle. Cheaper than D1; the notation choice and the buffer
+/// bound are D1's/D3's subject.
+macro_rules! d2 {
+    ($name:ident, $func:ident, $maxmant:expr, $u:literal, $slo:expr, $shi:expr, $maxopt:expr) => {
+        #[kani::proof]
+        #[kani::unwind($u)]
+        fn $name() {
+            let mant: u64 = kani::any();
+            kani::assume(mant >= 1 && mant < $maxmant && mant % 10 != 0);
+            let n = ndigits(mant);
+            let sci_exp: i32 = kani::any();
+            kani::assume(sci_exp >= $slo && sci_exp <= $shi);
+            let exp10 = sci_exp - n as i32 + 1;
+            let maxd: usize = kani::any();
+            let mind: usize = kani::any();
+            kani::assume(maxd <= $maxopt && mind <= $maxopt && (maxd == 0 || mind <= maxd));
+            let truncate: bool = kani::any();
+            let trim: bool = kani::any();
+            let opts = WriteFloatOptions::builder()
+                .max_significant_digits(NonZeroUsize::new(maxd))
+                .min_significant_digits(NonZeroUsize::new(mind))
+                .round_mode(if truncate { RoundMode::Truncate } else { RoundMode::Round })
+                .trim_floats(trim)
+                .build_unchecked();
+            let mut buf = [0xAAu8; 48];
+            let fp = ExtendedFloat80 { mant, exp: exp10 };
+            let len = lexical_write_float::algorithm::$func::<f64, STANDARD>(&mut buf, fp, sci_exp, &opts);
+            assert!(len <= 48);
+            let out = &buf[..len];
+            let d = decode(out, b'.', b'e');
+            assert!(d.ok, "output is not digits[.digits][e[-]digits]");
+            let (r, er, carried) = if maxd != 0 && maxd < n {
+                let cut = n - maxd;
+                let p = POW10[cut] as u64;
+                let q = mant / p;
+                let rem = mant % p;
+                let half = 5 * (POW10[cut - 1] as u64);
+                let up = !truncate && (rem > half || (rem == half && q % 2 == 1));
+                let r = q + up as u64;
+                (r, exp10 + cut as i32, up && ndigits(r) > maxd)
+            } else {
+                (mant, exp10, false)
+            };
+            let e_out = d.exp - d.n_frac as i32;
+            if e_out >= er {
+                let sh = (e_out - er) as usize;
+                assert!(sh < 30);
+                assert!(d.digits * POW10[sh] == r as u128, "value differs from the rounded decimal");
+            } else {
+                let sh = (er - e_out) as usize;
+                assert!(sh < 30);
+                assert!(d.digits == r as u128 * POW10[sh], "value differs from the rounded decimal");
+            }
+            if !trim {
+                assert!(d.has_point && d.n_frac >= 1, "untrimmed output has a fraction");
+            } else if d.has_point && exp10 >= 0 && (maxd == 0 || maxd >= n) {
+                // documented: "trim a trailing .0 from integral floats" (also with min digits). Only
+                // demanded when the float itself is integral and no digit was dropped; what happens
+                // to a '.0' that digit truncation produces is not specified.
+                assert!(d.digits % POW10[d.n_frac] != 0, "integral float keeps a fraction although trim_floats is set");
+            }
+            if mind != 0 && d.has_point {
+                assert!(d.sig >= mind, "fewer than min_significant_digits digits");
+            }
+            kani::cover!(carried, "rounding carried into a new leading digit");
+            kani::cover!(!d.has_point, "trimmed");
+            kani::cover!(maxd != 0 && maxd < n && !carried, "digits dropped");
+        }
+    };
+}
+d2!(d2_sci_3, write_float_scientific, 1_000, 30, -320, 300, 4);
+d2!(d2_pos_3, write_float_positive_exponent, 1_000, 30, 0, 9, 4);
+d2!(d2_neg_3, write_float_negative_exponent, 1_000, 30, -6, -1, 4);
+d2!(d2_sci_5, write_float_scientific, 100_000, 30, -320, 300, 6);
+d2!(d2_pos_5, write_float_positive_exponent, 100_000, 30, 0, 12, 6);
+d2!(d2_neg_5, write_float_negative_exponent, 100_000, 30, -8, -1, 6);
+
+/// D3 (C09): the public API with a buffer of exactly `buffer_size_const` bytes: no panic, no
+/// out-of-bounds access, returned length within the bound. No output oracle (that is D2).
+macro_rules! d3 {
+    ($name:ident, $maxmant:expr, $u:literal, $maxopt:expr, $maxbreak:expr) => {
+        #[kani::proof]
+        #[kani::unwind($u)]
+        #[kani::stub(lexical_write_float::algorithm::to_decimal, stub_to_decimal)]
+        fn $name() {
+            let mant: u64 = kani::any();
+            kani::assume(mant >= 1 && mant < $maxmant && mant % 10 != 0);
+            let exp10: i32 = kani::any();
+            kani::assume(exp10 >= -340 && exp10 <= 300);
+            let neg: bool = kani::any();
+            let maxd: usize = kani::any();
+            let mind: usize = kani::any();
+            kani::assume(maxd <= $maxopt && mind <= $maxopt && (maxd == 0 || mind <= maxd));
+            let pb: i32 = kani::any();
+            let nb: i32 = kani::any();
+            kani::assume(pb >= 0 && pb <= $maxbreak && nb <= 0 && nb >= -$maxbreak);
+            let truncate: bool = kani::any();
+            let trim: bool = kani::any();
+            let opts = WriteFloatOptions::builder()
+                .max_significant_digits(NonZeroUsize::new(maxd))
+                .min_significant_digits(NonZeroUsize::new(mind))
+                .positive_exponent_break(NonZeroI32::new(pb))
+                .negative_exponent_break(NonZeroI32::new(nb))
+                .round_mode(if truncate { RoundMode::Truncate } else { RoundMode::Round })
+                .trim_floats(trim)
+                .build_unchecked();
+            let size = opts.buffer_size_const::<f64, STANDARD>();
+            assert!(size == 64);
+            let mut buf = [0xAAu8; 64];
+            let f = encode_f64(mant, exp10, neg);
+            let out = lc::write_with_options::<f64, STANDARD>(f, &mut buf, &opts);
+            assert!(out.len() <= size);
+            assert!(out.len() >= 1 && (out[0] == b'-') == neg);
+            kani::cover!(out.len() > 20, "long output");
+            kani::cover!(neg, "negative");
+        }
+    };
+}
+d3!(d3_bound_3, 1_000, 40, 8, 12);
+d3!(d3_bound_5, 100_000, 40, 8, 12);
